@@ -43,13 +43,13 @@ type CheckCfg struct {
 }
 
 type KnownFinding struct {
-	ID       string   `json:"id"`
-	Property string   `json:"property"`
-	Status   string   `json:"status"` // open | fixed
-	Commit   string   `json:"commit,omitempty"`
-	Harness  string   `json:"harness"`
-	What     string   `json:"what"`
-	Witness  []string `json:"witness,omitempty"`
+	ID       string         `json:"id"`
+	Property string         `json:"property"`
+	Status   string         `json:"status"` // open | fixed
+	Commit   string         `json:"commit,omitempty"`
+	Harness  string         `json:"harness"`
+	What     string         `json:"what"`
+	Witness  []string       `json:"witness,omitempty"`
 	Params   map[string]int `json:"params,omitempty"`
 }
 
@@ -102,30 +102,30 @@ func loadKnown() []KnownFinding {
 }
 
 type harnessEvidence struct {
-	Name         string            `json:"name"`
-	What         string            `json:"what,omitempty"`
-	Params       map[string]int    `json:"bounds"`
-	Paths        int               `json:"paths"`
-	Outcomes     map[string]int    `json:"outcomes"`
-	Decisions    int               `json:"decisions"`
-	Obligations  int               `json:"obligations_reached"`
-	Discharged   int               `json:"discharged"`
-	Inconclusive int               `json:"inconclusive"`
-	Queries      map[string]int    `json:"solver_queries"`
-	SolverS      float64           `json:"solver_time_s"`
-	Unsupported  map[string]int    `json:"unsupported,omitempty"`
-	BoundHits    map[string]int    `json:"bound_hit,omitempty"`
-	Covers       []string          `json:"covers_reached"`
-	MissingCover []string          `json:"covers_missing,omitempty"`
-	Functions    []string          `json:"functions_encoded"`
-	Stubs        []string          `json:"stubs_hit"`
-	Exhaustive   bool              `json:"exhaustive"`
-	Validated    int               `json:"native_validated"`
-	KnownHits    map[string]int    `json:"known_class_paths,omitempty"`
-	Candidates   int               `json:"candidate_counterexamples"`
-	Confirmed    int               `json:"confirmed_counterexamples"`
-	WallS        float64           `json:"wall_s"`
-	Sample       interface{}       `json:"sample,omitempty"`
+	Name         string         `json:"name"`
+	What         string         `json:"what,omitempty"`
+	Params       map[string]int `json:"bounds"`
+	Paths        int            `json:"paths"`
+	Outcomes     map[string]int `json:"outcomes"`
+	Decisions    int            `json:"decisions"`
+	Obligations  int            `json:"obligations_reached"`
+	Discharged   int            `json:"discharged"`
+	Inconclusive int            `json:"inconclusive"`
+	Queries      map[string]int `json:"solver_queries"`
+	SolverS      float64        `json:"solver_time_s"`
+	Unsupported  map[string]int `json:"unsupported,omitempty"`
+	BoundHits    map[string]int `json:"bound_hit,omitempty"`
+	Covers       []string       `json:"covers_reached"`
+	MissingCover []string       `json:"covers_missing,omitempty"`
+	Functions    []string       `json:"functions_encoded"`
+	Stubs        []string       `json:"stubs_hit"`
+	Exhaustive   bool           `json:"exhaustive"`
+	Validated    int            `json:"native_validated"`
+	KnownHits    map[string]int `json:"known_class_paths,omitempty"`
+	Candidates   int            `json:"candidate_counterexamples"`
+	Confirmed    int            `json:"confirmed_counterexamples"`
+	WallS        float64        `json:"wall_s"`
+	Sample       interface{}    `json:"sample,omitempty"`
 }
 
 func runCheck(id, tier, repo, only string, workers int, noNative bool) int {
@@ -186,6 +186,10 @@ func runCheck(id, tier, repo, only string, workers int, noNative bool) int {
 		n, _ := strconv.Atoi(b)
 		budget = time.Duration(n) * time.Second
 	}
+	maxFails := 8
+	if mf := os.Getenv("VERIF_MAXFAILS"); mf != "" {
+		maxFails, _ = strconv.Atoi(mf)
+	}
 	for _, hc := range cfg.Harnesses {
 		if only != "" && hc.Name != only {
 			continue
@@ -212,7 +216,7 @@ func runCheck(id, tier, repo, only string, workers int, noNative bool) int {
 		hstart := time.Now()
 		h := &HarnessRun{eng: eng, name: hc.Name, fn: fn, outcomes: map[string]int{}, covers: map[string]bool{},
 			unsupported: map[string]int{}, boundHits: map[string]int{}, funcs: map[string]bool{}, stubs: map[string]bool{},
-			knownHits: map[string]int{}, sampleEvery: 50, maxPaths: tc.MaxPaths, maxFails: 8}
+			knownHits: map[string]int{}, sampleEvery: 50, maxPaths: tc.MaxPaths, maxFails: maxFails}
 		if h.maxPaths == 0 {
 			h.maxPaths = 200000
 		}
@@ -220,9 +224,9 @@ func runCheck(id, tier, repo, only string, workers int, noNative bool) int {
 		runs = append(runs, h)
 		ev := &harnessEvidence{Name: hc.Name, What: hc.What, Params: eng.params, Paths: h.paths, Outcomes: h.outcomes,
 			Decisions: h.decisions, Obligations: h.asserts, Discharged: h.discharged, Inconclusive: h.inconclusive,
-			Queries:   map[string]int{"sat": h.nSat, "unsat": h.nUnsat, "unknown": h.nUnknown},
-			SolverS:   h.solveTime.Seconds(), Unsupported: h.unsupported, BoundHits: h.boundHits,
-			Covers:    sortedKeysB(h.covers), Functions: sortedKeysB(h.funcs), Stubs: sortedKeysB(h.stubs),
+			Queries: map[string]int{"sat": h.nSat, "unsat": h.nUnsat, "unknown": h.nUnknown},
+			SolverS: h.solveTime.Seconds(), Unsupported: h.unsupported, BoundHits: h.boundHits,
+			Covers: sortedKeysB(h.covers), Functions: sortedKeysB(h.funcs), Stubs: sortedKeysB(h.stubs),
 			KnownHits: h.knownHits, WallS: time.Since(hstart).Seconds()}
 		ev.Exhaustive = !h.truncated && len(h.fails) < h.maxFails
 		for _, c := range hc.Covers {
@@ -230,8 +234,8 @@ func runCheck(id, tier, repo, only string, workers int, noNative bool) int {
 				ev.MissingCover = append(ev.MissingCover, c)
 			}
 		}
-		fmt.Fprintf(os.Stderr, "[%s] %s: paths=%d outcomes=%v obligations=%d discharged=%d inconclusive=%d fails=%d queries=%d/%d/%d solver=%.1fs wall=%.1fs\n",
-			id, hc.Name, h.paths, h.outcomes, h.asserts, h.discharged, h.inconclusive, len(h.fails), h.nSat, h.nUnsat, h.nUnknown,
+		fmt.Fprintf(os.Stderr, "[%s] %s: paths=%d outcomes=%v obligations=%d discharged=%d inconclusive=%d fails=%d tweaks=%d queries=%d/%d/%d solver=%.1fs wall=%.1fs\n",
+			id, hc.Name, h.paths, h.outcomes, h.asserts, h.discharged, h.inconclusive, len(h.fails), h.tweaks, h.nSat, h.nUnsat, h.nUnknown,
 			h.solveTime.Seconds(), time.Since(hstart).Seconds())
 		for k, n := range h.unsupported {
 			fmt.Fprintf(os.Stderr, "   unsupported x%d: %s\n", n, k)
@@ -264,6 +268,11 @@ func runCheck(id, tier, repo, only string, workers int, noNative bool) int {
 			if i := strings.Index(key, " @"); i > 0 {
 				key = key[:i]
 			}
+			for _, o := range f.Observes {
+				if strings.HasPrefix(o, "class=") {
+					key += " " + o
+				}
+			}
 			if seenMsg[key] >= 2 {
 				continue
 			}
@@ -274,6 +283,11 @@ func runCheck(id, tier, repo, only string, workers int, noNative bool) int {
 			batch = append(batch, replayItem{ID: "cand:" + rid, Harness: hc.Name, Vector: f.Vector, Params: eng.params, Known: openIDs(eng), Repeat: rep})
 		}
 		ev.Candidates = len(h.fails)
+		if os.Getenv("VERIF_DUMPFAILS") != "" {
+			for _, f := range h.fails {
+				fmt.Fprintf(os.Stderr, "FAIL %s | %s | obs: %s | in: %s\n", hc.Name, f.Msg, strings.Join(f.Observes, " "), strings.Join(f.Named, " "))
+			}
+		}
 		// validation samples
 		for i, s := range h.samples {
 			if tier == "quick" && i >= 20 {
@@ -322,7 +336,7 @@ func runCheck(id, tier, repo, only string, workers int, noNative bool) int {
 					p := writeReplay(id, c.rid, c.h, c.f, eng.params, r, repo)
 					replayPaths = append(replayPaths, p)
 					fmt.Printf("VIOLATION property=%s replay=%s\n", id, p)
-					fmt.Fprintf(os.Stderr, "   %s: %s (native: %s %s)\n", c.h, c.f.Msg, r.Outcome, r.Msg)
+					fmt.Fprintf(os.Stderr, "   %s: %s\n      inputs: %s\n      observed: %s\n", c.h, c.f.Msg, strings.Join(c.f.Named, " "), strings.Join(r.Observes, " "))
 					for _, ev := range evs {
 						if ev.Name == c.h {
 							ev.Confirmed++
@@ -562,7 +576,7 @@ func writeReplay(id, rid, harness string, f FailRec, params map[string]int, r re
 		commit = strings.TrimSpace(string(out))
 	}
 	doc := map[string]interface{}{
-		"property": id, "harness": harness, "message": f.Msg, "kind": f.Kind, "vector": f.Vector, "params": params,
+		"property": id, "harness": harness, "message": f.Msg, "kind": f.Kind, "vector": f.Vector, "inputs": f.Named, "engine_observations": f.Observes, "params": params,
 		"native_outcome": r.Outcome, "native_message": r.Msg, "native_observations": r.Observes, "repo_commit": commit,
 	}
 	b, _ := json.MarshalIndent(doc, "", " ")
